@@ -172,6 +172,22 @@ def realize(repo: Repo, chk: Check) -> None:
             chk.result(ok_ret, rule, key + ":return-not-output", s.where(), "func.return is never treated as a writer")
     if seen != {"copy-in", "copy-out"}:
         chk.bad("C12.copy-in", f"{f.key}:both-copies", f.where, f"only {sorted(seen)} found: the buffer is not filled / not written back")
+    # who uses the buffer: the users of the cast value AND the users of its views - a kernel that writes `memref.subview %cast` writes the buffer
+    chk.rule("C12.view-users", "the first reader / last writer of the realised buffer are searched among the users of the cast value and, transitively, of its views "
+             "(memref.subview)", floor=1)
+    direct = [n for n in ast.walk(f.node) if isinstance(n, (ast.ListComp, ast.GeneratorExp, ast.DictComp, ast.SetComp)) and any(norm.match(T("$op.dest.uses"), g_.iter, {"op": op}) is not None
+                                                                                                      or norm.match(T("$op.results[0].uses"), g_.iter, {"op": op}) is not None for g_ in n.generators)]
+    follows = any(isinstance(n, ast.Call) and callee_name(n) == "isinstance" and len(n.args) == 2 and "SubviewOp" in ast.unparse(n.args[1]) for n in ast.walk(f.node)) and any(
+        isinstance(n, ast.Call) and isinstance(n.func, ast.Attribute) and n.func.attr in ("extend", "append") and any(isinstance(x, ast.Attribute) and x.attr in ("results", "result")
+                                                                                                                   for x in ast.walk(n)) for n in ast.walk(f.node))
+    if not direct and not follows:
+        chk.floors["C12.view-users"] = 0
+        chk.observe("C12.view-users not evaluated: how the users of the cast value are collected was not recognised")
+    else:
+        chk.result(follows, "C12.view-users", f"{f.key}:views-followed", f"{f.module.relpath}:{direct[0].lineno if direct else f.node.lineno}",
+                   "users of views of the cast value count as users of the buffer",
+                   "only the direct users of the cast value are considered: for `cast -> memref.subview -> linalg.generic outs(view)` the subview op itself is taken for the last "
+                   "writer, the copy back is placed behind it and in FRONT of the kernel, whose result never reaches the original (findings/C12_written_through_subview.mlir)")
     # the replacement: ops_to_add contains the alloc with dest type/space/layout
     al = [s for s in fl.calls("get") if s.reachable and "AllocOp" in ast.unparse(s.node.func)]
     ok_al = False
